@@ -14,14 +14,19 @@ package nsqd
 // PROPERTY TEXT (C08): emptying a topic discards what is queued: the memory queue is drained - received and
 // dropped, never written to the backend - then the backend is emptied and its error returned.
 //@ func (t *Topic) Empty() error
-//@   props C08 C13
+//@   props C08 C13 C10
 //@   requires flowTopic(t)
+//@   requires t != nil && t.backend != nil
 //@   ensures[backend-emptied-once] kBqEmpties == old(kBqEmpties) + 1 && kBqEmptyQueue == t.backend
 //@   ensures[backend-error-returned] result == kBqEmptyErr
 //@   ensures[discarded-not-persisted] backendWrites == old(backendWrites) && topicPuts == old(topicPuts)
 //@   ensures[drain-only] sent(t.memoryMsgChan) == old(sent(t.memoryMsgChan)) && recvd(t.memoryMsgChan) >= old(recvd(t.memoryMsgChan))
 //@   ensures[counters-untouched] t.messageCount == old(t.messageCount) && t.messageBytes == old(t.messageBytes)
+//@   ensures[backend-verdict] result == jBackendEmptyErr
 //@   modifies kBqEmpties, chanstore(*Message)
+//@   onreturn jTopicEmptyCalls := jTopicEmptyCalls + 1
+//@   onreturn jTopicEmptied := t
+//@   onreturn jTopicEmptyErr := result
 //@   loop 0
 //@     invariant[drain-only] sent(t.memoryMsgChan) == old(sent(t.memoryMsgChan)) && recvd(t.memoryMsgChan) >= old(recvd(t.memoryMsgChan)) && kBqEmpties == old(kBqEmpties)
 
@@ -91,6 +96,7 @@ package nsqd
 //@ func (t *Topic) DeleteExistingChannel(channelName string) error
 //@   props C08
 //@   requires t != nil && t.nsqd != nil
+//@   requires t != nil
 //@   lockassume kTopicChannelsBuilt(t)
 //@   ensures[unknown-refused] result != nil ==> kChanDeletes == old(kChanDeletes) && kBqDeletes == old(kBqDeletes) && kBqEmpties == old(kBqEmpties) && kNotifies == old(kNotifies) && !atlock(has(t.channelMap, channelName))
 //@   ensures[channel-deleted-once] result == nil ==> kChanDeletes == old(kChanDeletes) + 1 && kDeletedChan != nil
@@ -100,7 +106,8 @@ package nsqd
 //@   ensures[refused-starts-nothing] result != nil ==> onceSpawns == old(onceSpawns)
 //@   ensures[topic-follows-only-if-ephemeral] onceSpawns != old(onceSpawns) ==> t.ephemeral && result == nil && onceSpawns == old(onceSpawns) + 1 && onceSpawned == &t.deleter && atunlock(len(t.channelMap)) == 0
 //@   ensures[ephemeral-topic-follows-last-channel] result == nil && t.ephemeral && atunlock(len(t.channelMap)) == 0 ==> onceSpawns == old(onceSpawns) + 1
-//@   modifies t.channelMap, mapstore(map[string]*Channel), kNotifies, onceSpawns,
-//@        Channel.exitFlag, Channel.clients, mapstore(map[int64]Consumer), clientV2.InFlightCount, kConsEmptied, kConsClosed, kLastCons,
-//@        Channel.inFlightMessages, Channel.inFlightPQ, mapstore(map[MessageID]*Message), Message.index, Channel.deferredMessages, Channel.deferredPQ, mapstore(map[MessageID]*pqueue.Item),
-//@        kInitPQs, kBqEmpties, kBqDeletes, kChanDeletes, kBqCloses, kFlushes, backendWrites, lastWriteMsg, lastWriteQueue, lastWriteErr, chanstore(*Message), chanstore(int)
+//@   modifies t.channelMap, mapstore(map[string]*Channel), kNotifies, onceSpawns, Channel.exitFlag, Channel.clients, mapstore(map[int64]Consumer), clientV2.InFlightCount, kConsEmptied, kConsClosed, kLastCons, Channel.inFlightMessages, Channel.inFlightPQ, mapstore(map[MessageID]*Message), Message.index, Channel.deferredMessages, Channel.deferredPQ, mapstore(map[MessageID]*pqueue.Item), kInitPQs, kBqEmpties, kBqDeletes, kChanDeletes, kBqCloses, kFlushes, backendWrites, lastWriteMsg, lastWriteQueue, lastWriteErr, chanstore(*Message), chanstore(int), jDelChanCalls
+//@   onreturn jDelChanCalls := jDelChanCalls + 1
+//@   onreturn jDelChanTopic := t
+//@   onreturn jDelChanName := channelName
+//@   onreturn jDelChanErr := result
